@@ -20,7 +20,7 @@ TECHNIQUE = ("abstract interpretation of update histories: converters are built 
              "a reference history model; rejected updates leave the evaluated object graph unchanged; ownership of "
              "the converter's fields")
 
-KINDS = ("None", "year", "month", "date", "text")
+KINDS = ("None", "year", "month", "date", "text1", "text2", "text3")
 
 
 def _k(name):
@@ -87,6 +87,11 @@ class Scenario:
         if kind == "text":
             s = StrV(None, tag)
             return s, s         # the period depends on how many dash-separated fields the text has (decided on the path)
+        if kind in ("text1", "text2", "text3"):
+            # a text of exactly 1 / 2 / 3 dash-separated fields: a year, a year and a month, a date
+            s = StrV(None, tag)
+            s.n_fields = ("-", int(kind[-1]))
+            return s, s
         if kind == "float":
             return self.c.num(tag + ".x", "float"), None
         raise AnalysisError(kind)
@@ -356,22 +361,22 @@ def run(prog, tier) -> Result:
     reader_setup = lambda *a, **k: reader_setup_for(prog, *a, **k)
 
     for kind in KINDS:
-        rule = "R11.1" if kind == "text" else "R11.3"
+        rule = "R11.1" if kind.startswith("text") else "R11.3"
         for pair in PAIRS:
-            if kind == "text" and pair[0] == pair[1]:
+            if kind.startswith("text") and pair[0] == pair[1]:
                 continue
             cr.run(rule, GET, f"get_rate {pair[0]}->{pair[1]}, validity {kind}, date in the period",
                    reader_setup(kind, pair, "in", "explicit"), judge_rate)
         if kind == "None":
             continue
         for where in ("next", "year"):
-            if where == "year" and kind == "year":
+            if where == "year" and kind in ("year", "text1"):
                 continue
             for pair in FEW:
                 cr.run("R11.4", GET, f"get_rate {pair[0]}->{pair[1]}, validity {kind}, date in another period ({where})",
                        reader_setup(kind, pair, where, "explicit"), judge_rate)
     # currencies given by code
-    for kind in ("year", "text"):
+    for kind in ("year", "text2"):
         for pair in FEW:
             cr.run("R11.2", GET, f"get_rate {pair[0]}->{pair[1]}, validity {kind}, spec currency given by code",
                    reader_setup(kind, pair, "in", "explicit", spec_as="str"), judge_rate)
@@ -459,16 +464,16 @@ def run(prog, tier) -> Result:
                 for pair in (("base", "ca"), ("base", "cb"), ("ca", "cb"), ("cb", "base")):
                     cr.run("R11.9", GET, f"three updates over two periods (validity {kind}), date in the {read} period, "
                            f"{pair[0]}->{pair[1]}", three_setup(kind, read, pair), judge_rate)
-        for kind in ("year", "month", "date", "text"):
+        for kind in ("year", "month", "date", "text1", "text2", "text3"):
             for where in ("next", "year"):
-                if where == "year" and kind in ("year", "text"):
+                if where == "year" and kind in ("year", "text1"):
                     continue
                 for pair in PAIRS:
-                    if (pair in FEW and kind != "text") or pair[0] == pair[1]:
+                    if pair in FEW or pair[0] == pair[1]:
                         continue        # (identical currencies: known finding F6, filed under R11.3)
                     cr.run("R11.4", GET, f"get_rate {pair[0]}->{pair[1]}, validity {kind}, date in another period ({where})",
                            reader_setup(kind, pair, where, "explicit"), judge_rate)
-        for kind in ("month", "date", "text"):
+        for kind in ("month", "date", "text2", "text3"):
             for pair in PAIRS:
                 cr.run("R11.7", CALL, f"__call__ {pair[0]}->{pair[1]}, validity {kind}",
                        reader_setup(kind, pair, "in", "explicit", call=True), judge_amount)
@@ -514,6 +519,10 @@ def run(prog, tier) -> Result:
             return None
         if s.vkind == "float":
             return ("invalid validity accepted", o.brief())
+        if s.vkind == "text":
+            nf_ = getattr(o.args[1], "n_fields", None)
+            if nf_ is not None and nf_[1] not in (1, 2, 3):
+                return ("invalid period accepted", f"a text of {nf_[1]} dash-separated fields is no year, month or date")
         if any(t in ("date()=ValueError", "fromisoformat=ValueError") for t in o.trace):
             return ("invalid period accepted", "the period was found not to be a date / year / month (ValueError from "
                     "the date constructor), yet the update went through")
@@ -576,7 +585,7 @@ def run(prog, tier) -> Result:
     if n < 2:
         raise AnalysisError(f"R11.8: {n} writes of the converter state found (at least 2 expected)")
 
-    res.require("R11.1", 7)
+    res.require("R11.1", 21)
     res.require("R11.2", 4)
     res.require("R11.3", 32)
     res.require("R11.4", 20)
